@@ -3352,16 +3352,23 @@ class QuicConnection:
             self._local_max_streams_bidi,
             self._local_max_streams_uni,
         ):
-            if limit.used * 2 > limit.value:
-                limit.value *= 2
-                self._logger.debug("Local %s raised to %d", limit.name, limit.value)
-            if limit.value != limit.sent:
+            # The limit we enforce is only raised once the frame announcing it
+            # is actually written: start_frame() may refuse it for now.
+            value = limit.value
+            if limit.used * 2 > value:
+                value *= 2
+            if value != limit.sent:
                 buf = builder.start_frame(
                     limit.frame_type,
                     capacity=CONNECTION_LIMIT_FRAME_CAPACITY,
                     handler=self._on_connection_limit_delivery,
                     handler_args=(limit,),
                 )
+                if value != limit.value:
+                    limit.value = value
+                    self._logger.debug(
+                        "Local %s raised to %d", limit.name, limit.value
+                    )
                 buf.push_uint_var(limit.value)
                 limit.sent = limit.value
 
@@ -3646,23 +3653,25 @@ class QuicConnection:
         locally created unidirectional streams. We skip such streams to avoid
         spurious logging.
         """
-        if (
-            stream.max_stream_data_local
-            and stream.receiver.highest_offset * 2 > stream.max_stream_data_local
-        ):
-            stream.max_stream_data_local *= 2
-            self._logger.debug(
-                "Stream %d local max_stream_data raised to %d",
-                stream.stream_id,
-                stream.max_stream_data_local,
-            )
-        if stream.max_stream_data_local_sent != stream.max_stream_data_local:
+        # The limit we enforce is only raised once the frame announcing it is
+        # actually written: start_frame() may refuse it for now.
+        value = stream.max_stream_data_local
+        if value and stream.receiver.highest_offset * 2 > value:
+            value *= 2
+        if stream.max_stream_data_local_sent != value:
             buf = builder.start_frame(
                 QuicFrameType.MAX_STREAM_DATA,
                 capacity=MAX_STREAM_DATA_FRAME_CAPACITY,
                 handler=self._on_max_stream_data_delivery,
                 handler_args=(stream,),
             )
+            if value != stream.max_stream_data_local:
+                stream.max_stream_data_local = value
+                self._logger.debug(
+                    "Stream %d local max_stream_data raised to %d",
+                    stream.stream_id,
+                    stream.max_stream_data_local,
+                )
             buf.push_uint_var(stream.stream_id)
             buf.push_uint_var(stream.max_stream_data_local)
             stream.max_stream_data_local_sent = stream.max_stream_data_local
